@@ -50,7 +50,8 @@ def alphabet(rng, k=None, kind=None):
     elif kind == 'wide':
         # a spread beyond 2^16 (lookup tables indexed by label - minimum get big), small labels of both signs inside
         far = rng.choice([1, 1, -1]) * rng.randint(66000, 200000)
-        labs = sorted(rng.sample(range(-9, 10), k - 1) + [far])
+        w = max(3, k - 1)           # dense small labels: a non-negative label below its rank is likely
+        labs = sorted(rng.sample(range(-w, w + 1), k - 1) + [far])
     elif kind == 'minus1':
         labs = sorted(set([-1] + rng.sample(range(-3, 2 * k + 2), k - 1)))
         while len(labs) < k:
